@@ -75,8 +75,9 @@ def r1_dtype_table(repo=None):
         m = re.match(r"H5T_(IEEE_F|STD_I|STD_U)(\d+)(LE|BE)$", name)
         if not m:
             if re.match(r"H5T_", name):
-                r.violation(C_EXT, "get_hdf5_data_type", "(%r, %r, %d) -> %s" % (bo, kind, size, name), "unrecognised HDF5 type constant",
-                            line=ret.line)
+                # a name this rule has no row for (built by a macro, a native type ...): says nothing about what is returned
+                raise AnalysisError("get_hdf5_data_type: (%r, %r, %d) returns `%s`, which is not one of the H5T_{IEEE_F,STD_I,STD_U}<bits>{LE,BE} "
+                                    "constants this rule reads: not decided" % (bo, kind, size, name))
             continue
         cls = {"IEEE_F": "f", "STD_I": "i", "STD_U": "u"}[m.group(1)]
         bits = int(m.group(2))
